@@ -10,7 +10,8 @@ from . import common as C
 ID = "C17"
 ASSUMPTIONS = [
     "durations are arbitrary integers >= 1 (the order of completions is decided by the solver: every feasible order is a path)",
-    "the updater is attached to a fresh dispatcher (first episode; later episodes are C12), without filter and with the dominated-operations "
+    "the updater is attached to a fresh dispatcher; 'second' sub-spaces first play an episode of every length and reset() the dispatcher, "
+    "then check the same invariants in the new episode; without filter and with the dominated-operations "
     "filter (as the environments install it); completion is judged at the dispatcher's current time recomputed from instance + history",
     "with an option switched off a machine/job node may still disappear as an isolated node (documented behaviour of remove_node); only "
     "'removed => all its operations scheduled' is demanded",
@@ -45,6 +46,8 @@ def subspaces(tier):
         out += C.structure_subspaces(s3, 2, False, builder=b, options=[True, True], filter="dominated")
         out += [sp for sp in C.structure_subspaces(D.shapes(3, 3), 3, False, canonical=True, builder=b, options=[True, True], filter="none")
                 if max(m[0] for m in sp["machines"]) == 2]
+    for b in BUILDERS:
+        out += C.structure_subspaces(D.shapes(3, 3), 2, False, canonical=True, builder=b, options=[True, True], filter="none", second=True)
     s5 = [s for s in D.shapes(3, 5) if sum(s) == 5]
     for b in (["disj", "at"] if tier == "quick" else BUILDERS):
         out += C.structure_subspaces(s5, 3, False, canonical=True, builder=b, options=[True, True], filter="none")
@@ -57,7 +60,7 @@ def subspaces(tier):
 
 
 def cost(sp):
-    return C.cost(sp) * 2
+    return C.cost(sp) * 2 * (C.cost(sp) if sp.get('second') else 1)
 
 
 def harness(eng, sp):
@@ -82,6 +85,15 @@ def harness(eng, sp):
     except Exception as ex:
         eng.fail(key + f"/constructor-raises-{type(ex).__name__}", f"{ex}"[:200])
         return
+    if sp.get("second"):
+        # an earlier episode of chosen length on the same dispatcher, then reset(): the invariants must hold in the new episode too
+        s0 = Spec(desc)
+        for _ in range(1 + eng.choice(desc.n_ops, "first-episode-length")):
+            op, m = D.choose_dispatch(eng, desc, s0)
+            disp.dispatch(D.op_by_id(inst, op), m)
+            s0.apply(op, m)
+        disp.reset()
+        key += "/second-episode"
     spec = Spec(desc)
     n, M = desc.n_ops, desc.n_machines
     by_m = [[o for o in range(n) if m in desc.machines[o]] for m in range(M)]
